@@ -1010,6 +1010,17 @@ theorem dsq_cut_written_index (tag alphatype : Nat) (db : List Dsqdata.SeqRec) (
   rw [h2]
   exact Nat.lt_of_le_of_lt (Nat.div_le_div_right h1) hm
 
+/-- **… from the cut FILE.** In the four files `esl_dsqdata_Write` produces for `db`, cut `.dsqi` `m` bytes behind its 52-byte header so
+    that at least one index record is incomplete or missing (`m / 16 < db.length`). `esl_dsqdata_Open` accepts the files - the header,
+    `nseq` included, is intact - and the read never ends with end of data, for every chunk limit. -/
+theorem dsq_cut_index_files (tag alphatype : Nat) (fname fmt : List UInt8) (db : List Dsqdata.SeqRec) (maxseq : Nat) (maxpacket : Int)
+    (hty : alphatype = 1 ∨ alphatype = 2 ∨ alphatype = 3) (hlen : ∀ r ∈ db, r.dsq.length < 6 * Dsqdata.MAXPACKET)
+    (expect : Option Nat) (hexp : expect = none ∨ expect = some alphatype) (m : Nat) (hn : db.length < 2 ^ 64) (hm : m / 16 < db.length) :
+    ∃ (f : Dsqdata.Files) (o : Dsqdata.Opened), Dsqdata.writeDb tag alphatype fname fmt db = .ok f ∧
+      Dsqdata.openDb expect { f with idx := f.idx.take (52 + m) } = .ok o ∧ (Dsqdata.readDbX maxseq maxpacket o).2 ≠ .eof := by
+  obtain ⟨f, hw, ho⟩ := Dsqdata.openDb_cut_idx tag alphatype fname fmt db hty hlen expect hexp m
+  exact ⟨f, _, hw, ho, dsq_cut_written_index tag alphatype db maxseq maxpacket m hn hm⟩
+
 /-- … and a cut index does not: `demoDb` with the second index record missing ends in `fatalIndex 2 1` after the first chunk -/
 example : (match Dsqdata.openDb none (match Dsqdata.writeDb 7 2 [] [] demoDb with
       | .ok f => { f with idx := f.idx.take (52 + 16) } | _ => ⟨[], [], [], []⟩) with
